@@ -396,7 +396,9 @@ class PDADomain(Domain):
                 ("derived.to_final_state", lambda w: push(w, last(w, PK).to_final_state())),
                 ("derived.to_empty_stack", lambda w: push(w, last(w, PK).to_empty_stack())),
                 ("derived.to_cfg", lambda w: push(w, last(w, PK).to_cfg())),
-                ("derived.add_transition", mut_t), ("derived.add_final_state", mut_f)]
+                ("derived.add_transition", mut_t), ("derived.add_final_state", mut_f),
+                # to_dict() is a conversion to a plain dictionary: emptying the result must not touch the PDA
+                ("to_dict() emptied", lambda w: w["x"].to_dict().clear())]
 
     def observe(self, w):
         x = w["x"]
@@ -472,11 +474,11 @@ class IGDomain(Domain):
     LIGHT = True
 
     @staticmethod
-    def _build(spec):
+    def _build(spec, optim=7):
         from pyformlang.indexed_grammar import (IndexedGrammar, Rules, EndRule, ProductionRule, ConsumptionRule,
                                                 DuplicationRule)
         mk = {"prod": ProductionRule, "cons": ConsumptionRule, "end": EndRule, "dup": DuplicationRule}
-        return IndexedGrammar(Rules([mk[r[0]](*r[1:]) for r in spec]))
+        return IndexedGrammar(Rules([mk[r[0]](*r[1:]) for r in spec], optim))
 
     def seeds(self):
         from pyformlang.regular_expression import Regex
@@ -488,10 +490,15 @@ class IGDomain(Domain):
         def g2():
             spec = [("prod", "S", "A", "f"), ("cons", "g", "A", "B"), ("end", "B", "a")]
             return {"x": self._build(spec), "re": Regex("a"), "d": [], "spec": spec}
-        return [("non-empty through push/pop", g1), ("empty: wrong index", g2)]
+        def g3():
+            spec = [("prod", "S", "A", "f"), ("end", "A", "a")]
+            return {"x": self._build(spec, 0), "re": Regex("a"), "d": [], "spec": spec, "optim": 0}
+        return [("non-empty through push/pop", g1), ("empty: wrong index", g2), ("optim 0, no consumption rule", g3)]
 
     @staticmethod
     def _add(w, l, r, p):
+        if ("prod", l, r, p) in w["spec"]:
+            raise Disabled()        # add_production appends without looking, Rules() drops repeated rules: not comparable
         w["x"].rules.add_production(l, r, p)
         w["spec"] = w["spec"] + [("prod", l, r, p)]
 
@@ -529,9 +536,9 @@ class IGDomain(Domain):
 
     def _battery(self, x, re, light=False):
         if light:
-            return (("rules", self.rules_snapshot(x)), ("is_empty", x.is_empty()),
+            return (("rules", self.rules_snapshot(x)), ("rules.length", x.rules.length), ("is_empty", x.is_empty()),
                     ("remove_useless_rules().is_empty", x.remove_useless_rules().is_empty()), ("is_empty again", x.is_empty()))
-        return (("rules", self.rules_snapshot(x)), ("is_empty", x.is_empty()),
+        return (("rules", self.rules_snapshot(x)), ("rules.length", x.rules.length), ("is_empty", x.is_empty()),
                 ("remove_useless_rules().is_empty", x.remove_useless_rules().is_empty()),
                 ("intersection.is_empty", x.intersection(re).is_empty()),
                 ("regex unchanged", tuple(re.accepts(list(i)) for i in WA[:4])), ("is_empty again", x.is_empty()))
@@ -539,7 +546,7 @@ class IGDomain(Domain):
     def observe(self, w, light=False):
         from pyformlang.regular_expression import Regex
         got = self._battery(w["x"], w["re"], light)
-        want = self._battery(self._build(w["spec"]), Regex("a a*" if ("dup", "A", "B", "B") in w["spec"] else "a"), light)
+        want = self._battery(self._build(w["spec"], w.get("optim", 7)), Regex("a a*" if ("dup", "A", "B", "B") in w["spec"] else "a"), light)
         return tuple((k, "as on a fresh twin" if v == v2 else {"seed object": v, "fresh twin": v2})
                      for (k, v), (_, v2) in zip(got, want))
 
